@@ -649,11 +649,195 @@ def align_locals(na, nb):
     return na, R().visit(nb)
 
 
+# name -> ast.FunctionDef of the synchronous private helpers that BOTH twins
+# inherit from a common base class (filled by C14 from the program model).
+# A call to one of them may be inlined on both sides before the comparison
+# (second attempt only): a helper extracted from the threaded twin's whole
+# arm and from the asyncio twin's non-coroutine arm leaves the two functions
+# exactly as comparable as before the extraction.
+HELPERS = {}
+
+
+def _always_exits(body):
+    if not body:
+        return False
+    s = body[-1]
+    if isinstance(s, (ast.Return, ast.Raise)):
+        return True
+    if isinstance(s, ast.If):
+        return _always_exits(s.body) and _always_exits(s.orelse)
+    if isinstance(s, ast.Try):
+        if s.finalbody and _always_exits(s.finalbody):
+            return True
+        main = s.body + s.orelse
+        return _always_exits(main) and all(_always_exits(h.body)
+                                           for h in s.handlers)
+    return False
+
+
+def _tail_returns_only(body):
+    for s in body[:-1]:
+        if any(isinstance(n, ast.Return) for n in ast.walk(s)):
+            return False
+    if not body:
+        return True
+    s = body[-1]
+    if isinstance(s, ast.If):
+        return _tail_returns_only(s.body) and _tail_returns_only(s.orelse)
+    if isinstance(s, ast.Try):
+        def no_ret(b):
+            return not any(isinstance(n, ast.Return) for x in b
+                           for n in ast.walk(x))
+        if not no_ret(s.finalbody):
+            return False
+        hs = all(_tail_returns_only(h.body) for h in s.handlers)
+        if s.orelse:
+            return no_ret(s.body) and _tail_returns_only(s.orelse) and hs
+        return _tail_returns_only(s.body) and hs
+    if isinstance(s, (ast.For, ast.While, ast.With)):
+        return not any(isinstance(n, ast.Return) for n in ast.walk(s))
+    return True
+
+
+def _simple_arg(a):
+    while isinstance(a, ast.Attribute):
+        a = a.value
+    return isinstance(a, (ast.Name, ast.Constant))
+
+
+def _bind_helper(h, call):
+    params = [a.arg for a in h.args.args][1:]
+    if h.args.vararg or h.args.kwarg or h.args.kwonlyargs or \
+            any(isinstance(a, ast.Starred) for a in call.args) or \
+            any(k.arg is None for k in call.keywords):
+        return None
+    if len(call.args) > len(params):
+        return None
+    bound = dict(zip(params, call.args))
+    for k in call.keywords:
+        if k.arg not in params or k.arg in bound:
+            return None
+        bound[k.arg] = k.value
+    dflt = dict(zip(params[len(params) - len(h.args.defaults):],
+                    h.args.defaults))
+    for q in params:
+        if q not in bound:
+            if q not in dflt:
+                return None
+            bound[q] = dflt[q]
+    if not all(_simple_arg(v) for v in bound.values()):
+        return None
+    # parameters re-assigned in the helper would need fresh locals
+    for n in ast.walk(h):
+        if isinstance(n, ast.Name) and isinstance(n.ctx, ast.Store) and \
+                n.id in bound:
+            return None
+    return bound
+
+
+def _instantiate(h, bound, ret):
+    """copy of the helper's body with parameters substituted; ret(value)
+    builds the statement that replaces `return value`"""
+    body = copy.deepcopy([x for x in h.body if not is_doc(x)])
+    local = {n.id for x in body for n in ast.walk(x)
+             if isinstance(n, ast.Name) and isinstance(n.ctx, ast.Store)}
+
+    class S(ast.NodeTransformer):
+        def visit_Name(self, n):
+            if n.id in bound and isinstance(n.ctx, ast.Load):
+                return copy.deepcopy(bound[n.id])
+            if n.id in local:
+                return ast.Name(id='_%s_%s' % (h.name.strip('_'), n.id),
+                                ctx=n.ctx)
+            return n
+
+        def visit_Return(self, n):
+            self.generic_visit(n)
+            return ret(n.value if n.value is not None
+                       else ast.Constant(None))
+
+        def visit_FunctionDef(self, n):
+            return n
+        visit_AsyncFunctionDef = visit_Lambda = visit_FunctionDef
+    return [S().visit(x) for x in body]
+
+
+def inline_helpers(fnode):
+    """-> (copy of fnode with calls to HELPERS inlined, number inlined)"""
+    fnode = copy.deepcopy(fnode)
+    count = [0]
+
+    def helper_call(v):
+        if isinstance(v, ast.Await):
+            return None
+        if isinstance(v, ast.Call) and isinstance(v.func, ast.Attribute) \
+                and isinstance(v.func.value, ast.Name) and \
+                v.func.value.id == 'self' and v.func.attr in HELPERS:
+            h = HELPERS[v.func.attr]
+            b = _bind_helper(h, v)
+            if b is not None:
+                return h, b
+        return None
+
+    def block(stmts):
+        out = []
+        for s in stmts:
+            for fld in ('body', 'orelse', 'finalbody'):
+                if isinstance(getattr(s, fld, None), list) and \
+                        not isinstance(s, (ast.FunctionDef,
+                                           ast.AsyncFunctionDef)):
+                    setattr(s, fld, block(getattr(s, fld)))
+            for hd in getattr(s, 'handlers', []) or []:
+                hd.body = block(hd.body)
+            rep = None
+            if isinstance(s, ast.Return) and s.value is not None:
+                hb = helper_call(s.value)
+                if hb:
+                    rep = _instantiate(hb[0], hb[1],
+                                       lambda v: ast.Return(value=v))
+                    if not _always_exits(rep):
+                        rep.append(ast.Return(value=ast.Constant(None)))
+            elif isinstance(s, ast.Assign) and len(s.targets) == 1 and \
+                    isinstance(s.targets[0], ast.Name):
+                hb = helper_call(s.value)
+                tgt = s.targets[0].id
+                if hb and _tail_returns_only(hb[0].body) and \
+                        _always_exits([x for x in hb[0].body
+                                       if not is_doc(x)]):
+                    rep = _instantiate(hb[0], hb[1], lambda v: ast.Assign(
+                        targets=[ast.Name(id=tgt, ctx=ast.Store())],
+                        value=v, lineno=0))
+            elif isinstance(s, ast.Expr):
+                hb = helper_call(s.value)
+                if hb and _tail_returns_only(hb[0].body):
+                    rep = _instantiate(hb[0], hb[1],
+                                       lambda v: ast.Expr(value=v))
+            if rep is not None:
+                count[0] += 1
+                out.extend(rep)
+            else:
+                out.append(s)
+        return out
+    fnode.body = block(fnode.body)
+    ast.fix_missing_locations(fnode)
+    return fnode, count[0]
+
+
 def diff_functions(fa, fb):
     na, nb = normalise(fa), normalise(fb)
     na, nb = align_locals(na, nb)
     out = []
     diff_blocks(na.body, nb.body, out)
+    if out and HELPERS:
+        ia, ka = inline_helpers(fa)
+        ib, kb = inline_helpers(fb)
+        if ka or kb:
+            na, nb = normalise(ia), normalise(ib)
+            na, nb = align_locals(na, nb)
+            out2 = []
+            diff_blocks(na.body, nb.body, out2)
+            if not out2:
+                return out2
     return out
 
 
